@@ -325,6 +325,20 @@ def diff_class(a, b):
     return "%s-value" % _tn(a)
 
 
+def _equal_up_to_number_type(a, b):
+    """Type-strict equality, except that an int and a float of equal value count as the same number (never a bool)."""
+    num = lambda x: isinstance(x, (int, float)) and not isinstance(x, bool)
+    if num(a) and num(b):
+        return a == b
+    if isinstance(a, gen.SetT) or isinstance(b, gen.SetT):
+        return canon(a) == canon(b)
+    if isinstance(a, dict) and isinstance(b, dict):
+        return set(map(repr, a)) == set(map(repr, b)) and all(_equal_up_to_number_type(a[k], b[k]) for k in a)
+    if isinstance(a, list) and isinstance(b, list):
+        return len(a) == len(b) and all(_equal_up_to_number_type(x, y) for x, y in zip(a, b))
+    return canon(a) == canon(b)
+
+
 def _tn(x):
     if isinstance(x, gen.SetT):
         return "set"
@@ -921,7 +935,11 @@ def check_diff(ctx, case):
             col.witness("C16/yaml-diff/data-equal-but-exit-nonzero/differ-reports-%s" % "+".join(sorted(set(actions)) or ["nothing"]),
                         "two data-equal documents, exit != 0 (inherited from the Differ's report)", case,
                         observed={"exit": base["code"], "out": base["out"][:200]}, expected="exit 0")
-        if faithful and not equal and base["code"] == 0:
+        if faithful and not equal and base["code"] == 0 and _equal_up_to_number_type(lplain, rplain):
+            # 0 against 0.0: equal numbers of different YAML types -- "data-equal" in the statement does not say; the
+            # Differ compares numbers by value (from-code)
+            col.out_of_scope("yaml-diff/equal-numbers-of-different-type-compare-equal(from-code)")
+        elif faithful and not equal and base["code"] == 0:
             col.witness("C16/yaml-diff/data-differ-but-exit-zero/%s" % diff_class(lplain, rplain),
                         "two different documents, exit 0 and no report (inherited from the Differ's report)", case,
                         observed={"exit": 0, "out": base["out"][:200]}, expected="exit 1 and entries")
@@ -1235,10 +1253,12 @@ def build_cases(tier, seed):
     # --- merge / diff: pairs of small documents
     small = gen.trees(3, 2, keys=("a", "b"), scalars=(None, True, 1, "a"))
     small = [t for t in small if t is not None] + CRAFTED[:4]
+    # falsy scalar documents: 0, false and 0.0 are data, not "no document" (and differ from null and from each other's kind)
+    falsy = [0, False, 0.0, None]
     if quick:
-        pool = [t for i, t in enumerate(small) if i % 2 == 0 or isinstance(t, (dict, list))][:70]
+        pool = falsy + [t for i, t in enumerate(small) if i % 2 == 0 or isinstance(t, (dict, list))][:70]
     else:
-        pool = small if len(small) <= 300 else random.Random(seed + 2).sample(small, 300)
+        pool = falsy + (small if len(small) <= 300 else random.Random(seed + 2).sample(small, 300))
     rngp = random.Random(seed + 1)
     for li, lt in enumerate(pool):
         for ri, rt in enumerate(pool):
